@@ -254,3 +254,5 @@ def run(ck):
     # quoted names are one of the accepted header dialects: what git writes for a non-ASCII name is read back as that name (C12-R9)
     from . import c12
     c12.r9_quoted_form_is_read_back(ck_alias(ck, "C01-R9"))
+    # -R is the mirror image: wherever the direction selects between a pair of old/new things, Revert takes the other one (C16-R5)
+    c16.r5(ck_alias(ck, "C01-R10"))
